@@ -4,10 +4,11 @@
 -/
 import HotXL.Driver.Cell
 import HotXL.Driver.Emitter
+import HotXL.Driver.Eval
 open HotXL
 
 def handlers : List (String → List Sexp → Option String) :=
-  [HotXL.Driver.Cell.handle, HotXL.Driver.Emitter.handle]
+  [HotXL.Driver.Cell.handle, HotXL.Driver.Emitter.handle, HotXL.Driver.Eval.handle]
 
 def answer (line : String) : String :=
   match Sexp.parseLine line with
